@@ -1708,6 +1708,13 @@ func (e *Exec) resultVals(c *CCtx, names []string, rs []string, tys *types.Tuple
 func (e *Exec) contractPost(st *State, ret *ssa.Return, rs []string) {
 	c := e.newCtx(st)
 	e.resultVals(c, e.contract.Returns, rs, e.fn.Signature.Results())
+	for _, g := range e.contract.GhostRets { // not bound on paths where the expression does not exist (guard its uses)
+		n0 := len(e.undecided)
+		if t, ok := e.safeCompile(c, g.Cl, "ghostret "+g.Name); ok {
+			c.vars[g.Name] = CVal{T: t, Sort: g.Sort}
+		}
+		e.undecided = e.undecided[:n0]
+	}
 	for i, cl := range e.contract.Ensures {
 		if t, ok := e.safeCompile(c, cl, fmt.Sprintf("ensures %d", i+1)); ok {
 			e.obligeCl(st, fmt.Sprintf("post%d", i+1), t, &e.contract.Ensures[i])
@@ -1855,10 +1862,18 @@ func (e *Exec) applyContract(st *State, call *ssa.Call, fc *FuncContract, args [
 		rs = append(rs, r)
 	}
 	e.resultVals(c, fc.Returns, rs, res)
-	for _, cl := range fc.Ensures {
+	for _, g := range fc.GhostRets {
+		gt := e.fresh("ghost_"+g.Name, g.Sort)
+		c.vars[g.Name] = CVal{T: gt, Sort: g.Sort}
+		st.snaps[fmt.Sprintf("ghost:%s#%d.%s", fc.Name, cnt, g.Name)] = g.Sort + "\x01" + gt
+	}
+	for _, cl := range append(append([]Clause{}, fc.Ensures...), fc.Abstracts...) {
 		if t, ok := e.safeCompile(c, cl, "ensures of "+fc.Name); ok {
 			st.assume = append(st.assume, t)
 		}
+	}
+	if len(fc.Abstracts) > 0 {
+		e.applied["abstraction clause of "+fc.Name]++
 	}
 	return strings.Join(rs, "\x00")
 }
